@@ -841,13 +841,15 @@ class Interp(object):
     idx, depth, on, off = v
     depth = _int(depth)
     ax = op.get_attr('axis')
-    if ax not in (-1, idx.ndim):
-      raise HarnessError('OneHot axis')
+    if ax < 0:
+      ax = idx.ndim
     on, off = sym.scalar(on), sym.scalar(off)
     out = np.empty(idx.shape + (depth,), dtype=object)
     for ii in np.ndindex(*idx.shape):
       for k in range(depth):
         out[ii + (k,)] = sym.s_ite(sym.s_cmp('eq', idx[ii], k), on, off)
+    if ax != idx.ndim:
+      out = np.moveaxis(out, -1, ax)
     return [out]
 
   def op_Where(self, op, v):
